@@ -129,10 +129,10 @@ func drawType(t *rapid.T, o TypeOpts, depth int) *ref.Type {
 
 // ValueOpts bounds generated values.
 type ValueOpts struct {
-	MaxLen   int       // maximal list/map/string length
-	DynDepth int       // how deep dynamic values may nest
-	DynTypes TypeOpts  // types used inside dynamic values
-	NoRaw    bool      // never generate raw dynamic values
+	MaxLen   int        // maximal list/map/string length
+	DynDepth int        // how deep dynamic values may nest
+	DynTypes TypeOpts   // types used inside dynamic values
+	NoRaw    bool       // never generate raw dynamic values
 	DynLeaf  []ref.Kind // leaf kinds of dynamic values (defaults to constructors)
 }
 
@@ -150,6 +150,20 @@ var float64Specials = []uint64{0, 0x8000000000000000, 0x7ff0000000000000, 0xfff0
 // Str generates strings: empty, ascii, multi-byte.
 func Str(maxLen int) *rapid.Generator[string] {
 	return rapid.OneOf(
+		// now and then a long string: buffering thresholds (128, 256, 4096...)
+		// are crossed only by inputs longer than the usual few bytes
+		rapid.Custom(func(t *rapid.T) string {
+			if rapid.IntRange(0, 11).Draw(t, "long") != 0 {
+				return rapid.StringN(0, maxLen, -1).Draw(t, "short")
+			}
+			n := rapid.SampledFrom([]int{127, 128, 129, 255, 256, 257, 1000, 4097}).Draw(t, "longlen")
+			b := make([]byte, n)
+			seed := rapid.Byte().Draw(t, "fill")
+			for i := range b {
+				b[i] = 'a' + (seed+byte(i*7))%26
+			}
+			return string(b)
+		}),
 		rapid.SampledFrom([]string{"", "a", "hello", "é", "日本語", "\x00", "a\x00b", "\xff\xfe"}),
 		rapid.StringN(0, maxLen, -1),
 		rapid.Map(rapid.SliceOfN(rapid.Byte(), 0, maxLen), func(b []byte) string { return string(b) }),
@@ -165,7 +179,9 @@ func Value(ty *ref.Type, o ValueOpts) *rapid.Generator[interface{}] {
 }
 
 // DrawValue draws a value of type ty directly.
-func DrawValue(t *rapid.T, ty *ref.Type, o ValueOpts) interface{} { return drawValue(t, ty, o, o.DynDepth) }
+func DrawValue(t *rapid.T, ty *ref.Type, o ValueOpts) interface{} {
+	return drawValue(t, ty, o, o.DynDepth)
+}
 
 // DrawType draws a type directly.
 func DrawType(t *rapid.T, o TypeOpts) *ref.Type { return drawType(t, o, o.Depth) }
@@ -204,7 +220,7 @@ func drawValue(t *rapid.T, ty *ref.Type, o ValueOpts, dyn int) interface{} {
 	case ref.KBool:
 		return rapid.Bool().Draw(t, "b")
 	case ref.KString:
-		return Str(o.MaxLen * 3).Draw(t, "s")
+		return Str(o.MaxLen*3).Draw(t, "s")
 	case ref.KRaw:
 		return rapid.SliceOfN(rapid.Byte(), 0, o.MaxLen*4).Draw(t, "r")
 	case ref.KVoid:
